@@ -103,15 +103,18 @@ def inline_let(prog):
     m = prog["main"]
     stmts = prog["mods"][m]
     for i, st in enumerate(stmts):
-        if st["k"] == "decl" and st["n"] == 0 and st["q"] != "@" and not st["s"].startswith("@"):
+        if st["k"] == "decl" and st["n"] == 0 and st["q"] != "@" and not st["s"].startswith("@") and not st.get("ann"):
             rhs = st["a"][0]
             name = st["s"]
             if name in free_names(rhs) or free_names(rhs) - {s2["s"] for s2 in stmts if s2["k"] == "decl"} - {"concat"}:
                 continue
             used = [False]
+            blocked = [False]
 
             def sub(n, bound):
                 if n["k"] == "var" and not n["q"] and n["s"] == name and name not in bound:
+                    if n.get("ann"):
+                        blocked[0] = True        # a use-site annotation would need nested terminals: not inlined
                     used[0] = True
                     return copy.deepcopy(rhs)
                 n = dict(n)
@@ -124,7 +127,7 @@ def inline_let(prog):
                 return n
             new = [sub(s2, set()) for j, s2 in enumerate(stmts) if j != i]
             # the declaration may be recursive through others: only inline when nothing refers back
-            if used[0] and name not in set().union(*[free_names(s2["a"][s2["n"]]) for s2 in new if s2["k"] == "decl"] or [set()]):
+            if used[0] and not blocked[0] and name not in set().union(*[free_names(s2["a"][s2["n"]]) for s2 in new if s2["k"] == "decl"] or [set()]):
                 q = copy.deepcopy(prog)
                 q["mods"][m] = new
                 return q
